@@ -28,6 +28,8 @@
 #include "theta_union.hpp"
 #include "theta_intersection.hpp"
 #include "theta_a_not_b.hpp"
+#include "bounds_on_ratios_in_sampled_sets.hpp"
+#include "bounds_on_ratios_in_theta_sketched_sets.hpp"
 #include "tuple_sketch.hpp"
 #include "tuple_union.hpp"
 #include "tuple_intersection.hpp"
@@ -118,6 +120,28 @@ static void cpc_emit(const cpc_sketch& s, Out& o) {
   o.E(s.get_lg_k()); o.E(s.get_num_coupons()); o.E(s.was_merged ? 1 : 0); o.E(db(est));
   for (unsigned k = 1; k <= 3; ++k) { o.R(db(lb[k])); o.R(db(ub[k])); }
   o.Fd(est);
+}
+
+// bounds_on_ratios_in_theta_sketched_sets on (A, B): R = est lb ub 0 ; E = n_a theta64_a n_b theta64_b |A below theta(B)| kappa inner_lb inner_ub
+// (inner = bounds_binomial_proportions at the kappa derived from theta(B): goes through exp/pow)
+template<typename EK, typename SA, typename SB>
+static void ratio_emit(const SA& a, const SB& b, Out& o) {
+  typedef bounds_on_ratios_in_theta_sketched_sets<EK> br;
+  o.E(a.get_num_retained()); o.E((I)a.get_theta64()); o.E(b.get_num_retained()); o.E((I)b.get_theta64());
+  uint64_t below = 0;
+  for (const auto& entry : a) if (EK()(entry) < b.get_theta64()) ++below;
+  o.E((I)below);
+  const uint64_t ca = (a.get_theta64() == b.get_theta64()) ? a.get_num_retained() : below;
+  const double kappa = bounds_on_ratios_in_sampled_sets::NUM_STD_DEVS * bounds_on_ratios_in_sampled_sets::hacky_adjuster(b.get_theta());
+  o.E(db(kappa));
+  if (ca >= b.get_num_retained()) {
+    o.E(db(bounds_binomial_proportions::approximate_lower_bound_on_p(ca, b.get_num_retained(), kappa)));
+    o.E(db(bounds_binomial_proportions::approximate_upper_bound_on_p(ca, b.get_num_retained(), kappa)));
+  } else { o.E(0); o.E(0); }
+  const double est = br::estimate_of_b_over_a(a, b);
+  const double lb = br::lower_bound_for_b_over_a(a, b);
+  const double ub = br::upper_bound_for_b_over_a(a, b);
+  o.R(db(est)); o.R(db(lb)); o.R(db(ub)); o.R(0);
 }
 
 static target_hll_type ty_of(I t) {
@@ -269,6 +293,51 @@ static void handler(const Line& t, Out& o) {
     for (int sd = 1; sd <= 3; ++sd) {
       o.Fd(bounds_binomial_proportions::approximate_lower_bound_on_p(n, k, (double)sd));
       o.Fd(bounds_binomial_proportions::approximate_upper_bound_on_p(n, k, (double)sd));
+    }
+    break; }
+  case 12: { // bounds_on_ratios_in_sampled_sets: 12 a b fbits
+    const uint64_t a = (uint64_t)t.at(1), b = (uint64_t)t.at(2); const double f = vh::bitsd(t.at(3));
+    const double lb = bounds_on_ratios_in_sampled_sets::lower_bound_for_b_over_a(a, b, f);
+    const double ub = bounds_on_ratios_in_sampled_sets::upper_bound_for_b_over_a(a, b, f);
+    const double est = bounds_on_ratios_in_sampled_sets::get_estimate_of_b_over_a(a, b);
+    const double kappa = bounds_on_ratios_in_sampled_sets::NUM_STD_DEVS * bounds_on_ratios_in_sampled_sets::hacky_adjuster(f);
+    o.E(db(kappa));
+    o.E(db(bounds_binomial_proportions::approximate_lower_bound_on_p(a, b, kappa)));
+    o.E(db(bounds_binomial_proportions::approximate_upper_bound_on_p(a, b, kappa)));
+    o.R(db(est)); o.R(db(lb)); o.R(db(ub)); o.R(0);
+    break; }
+  case 13: { // ratio bounds on real sketches: 13 kind mode lgkA lgkC pAbits pCbits na nc overlap seed
+    const int kind = (int)t.at(1), mode = (int)t.at(2);
+    const uint8_t lga = (uint8_t)t.at(3), lgc = (uint8_t)t.at(4);
+    const float pa = vh::bitsf(t.at(5)), pc = vh::bitsf(t.at(6));
+    const uint64_t na = (uint64_t)t.at(7), nc = (uint64_t)t.at(8), ov = (uint64_t)t.at(9), seed = (uint64_t)t.at(10);
+    if (ov > na) throw std::invalid_argument("overlap");
+    if (kind == 0) {
+      auto a = update_theta_sketch::builder().set_lg_k(lga).set_p(pa).build();
+      auto c = update_theta_sketch::builder().set_lg_k(lgc).set_p(pc).build();
+      for (uint64_t i = 0; i < na; ++i) a.update(key(seed, i));
+      for (uint64_t i = 0; i < nc; ++i) c.update(key(seed, na - ov + i));
+      typedef trivial_extract_key EK;
+      switch (mode) {
+      case 0: { theta_intersection x; x.update(a); x.update(c); ratio_emit<EK>(a, x.get_result(), o); break; }   // B = A n C
+      case 1: ratio_emit<EK>(a, a.compact(), o); break;                                                             // B = A
+      case 2: { theta_a_not_b x; ratio_emit<EK>(a, x.compute(a, c), o); break; }                                  // B = A \ C
+      case 3: ratio_emit<EK>(a.compact(), c, o); break;                                                             // unrelated B (refused when theta(B) > theta(A))
+      default: throw std::invalid_argument("mode");
+      }
+    } else {
+      auto a = update_tuple_sketch<int>::builder().set_lg_k(lga).set_p(pa).build();
+      auto c = update_tuple_sketch<int>::builder().set_lg_k(lgc).set_p(pc).build();
+      for (uint64_t i = 0; i < na; ++i) a.update(key(seed, i), 1);
+      for (uint64_t i = 0; i < nc; ++i) c.update(key(seed, na - ov + i), 1);
+      typedef pair_extract_key<uint64_t, int> EK;
+      switch (mode) {
+      case 0: { tuple_intersection<int, sum_policy> x; x.update(a); x.update(c); ratio_emit<EK>(a, x.get_result(), o); break; }
+      case 1: ratio_emit<EK>(a, a.compact(), o); break;
+      case 2: { tuple_a_not_b<int> x; ratio_emit<EK>(a, x.compute(a, c), o); break; }
+      case 3: ratio_emit<EK>(a.compact(), c, o); break;
+      default: throw std::invalid_argument("mode");
+      }
     }
     break; }
   case 10: { // erf, normal_cdf
